@@ -562,6 +562,12 @@ def run(ck):
         "C15: Go map iteration order is read back from the body (accepted only when it is a permutation of the input keys)",
         "C15: /series: the decoding of a stored label text that is not JSON (strconv.Unquote fallback of storedLabels) is an input of the model; texts that are "
         "JSON objects of strings are decoded by the Coq reader itself",
+        "C15: protojson's encoder, encoding/json's struct walk of FlamebearerProfileV1 and strconv.Quote (ASCII) are modelled in model/JsonPyro.v and compared byte-exactly "
+        "with the real handlers on every case, for the detrand coin the harness binary happens to have; map key order of encoding/json is supplied sorted by the harness",
+        "C15: google.golang.org/protobuf proto.Unmarshal / deterministic proto.Marshal as the reader of the protobuf Trace body and for the per-span byte comparison (harness tracepb)",
+        "C15: ResponseOptimizerPlanner: the order in which Go visits its map is observed between the stage and the encoder (accepted only when it is a permutation of the "
+        "keys); the constant 3000 and the two size tests are compared with the source text",
+        "C15: TraceQL durationMs: that ClickHouse evaluates toFloat64(Int64)/1000000 as the IEEE conversion and division (the SQL expression text is compared with the source)",
     ]
     # the .vo files the case evaluations load must be current before anything runs; the fresh compile of props/C15.v that
     # prints the assumptions of its ~110 theorems (0.45 s each) then runs beside the harnesses and case evaluations
